@@ -21,11 +21,8 @@ func runC12(c *Check, tier string) {
 	c.Rule("R12d", "the walker spawns node routines only under GetIsSelected()", 1)
 	if w := findWalker(c, "R12d"); w != nil {
 		for _, g := range w.Spawns {
-			reach, _ := engine.PathExists(g.Parent(), nil, engine.IsInstr(g), engine.PathQuery{CutEdge: engine.CutEdgesWhere(func(a engine.Atom) bool {
-				call, _ := engine.CallOf(a.V)
-				return a.Op == "true" && call != nil && call.Common().IsInvoke() && call.Common().Method.Name() == "GetIsSelected"
-			})})
-			c.Require(!reach, "R12d", "run-only-selected/"+c.P.FuncName(g.Parent()), "routines are spawned only on the GetIsSelected() branch", "a routine (and therefore the callback / command) can be started for a node that was not selected", c.P.InstrPos(g))
+			reach := !spawnOnlyForSelected(g.Parent(), g)
+			c.Require(!reach, "R12d", "run-only-selected/"+c.P.FuncName(g.Parent()), "routines are spawned only for selected nodes (GetIsSelected() branch, or membership in the registry that is filled only under it)", "a routine (and therefore the callback / command) can be started for a node that was not selected", c.P.InstrPos(g))
 		}
 	}
 	ruleR12e(c)
